@@ -1055,6 +1055,23 @@ fn write_replays(dir: &str) {
         ("empty-verifying-key-node-row", Case::Instance(vec![row(0, BytesSpec::Empty, 0, 0)])),
         ("json-field-null-variable", mut_json(Val::Var(PKind::Null))),
         ("json-field-null-literal", mut_json(Val::Lit(PKind::Null))),
+        ("json-field-null-variable-through-instance", {
+            match mut_json(Val::Var(PKind::Null)) {
+                Case::Requests(mut r) => {
+                    r.via_instance = true;
+                    Case::Requests(r)
+                }
+                c => c,
+            }
+        }),
+        ("empty-verifying-key-room-node-answer", {
+            use discret::verif as dvv;
+            let node = dvv::database::node::Node { id: [1; 16], room_id: None, cdate: 1, mdate: 1, _entity: "0.0".into(), _json: Some("{}".into()), _signature: vec![0; 64], ..Default::default() };
+            let rn = dvv::database::room_node::RoomNode { node, last_modified: 1, admin_edges: vec![], admin_nodes: vec![], auth_edges: vec![], auth_nodes: vec![] };
+            let mut bytes = vec![9u8];
+            bytes.extend(bincode::serialize(&rn).unwrap());
+            Case::Artifact { target: "wire_decode".into(), hex: fuzzrun::hex(&bytes) }
+        }),
         ("wire-date-out-of-range", Case::Instance(vec![q(7, 6)])),
         ("wire-date-next-day-overflow", Case::Instance(vec![q(9, 8)])),
         ("signed-deletion-record-date-out-of-range", Case::Instance(vec![row(2, BytesSpec::Good, 6, 0)])),
